@@ -116,6 +116,8 @@ def expr_tok(rec, cx: MCtx, new_id: str, *, in_summarize: bool = False) -> Tok:
         return expr_tok(cx.exprs[rec["x"]], cx, new_id, in_summarize=in_summarize)
     if e == "lit":
         return Tok(new_id, "const", const=rec["v"])
+    if e == "litcast":
+        return Tok(new_id, "const", const=rec["v"])
     if e == "add":
         cx.resolve(rec["a"])
         cx.resolve(rec["b"])
@@ -249,6 +251,9 @@ def real_expr(rec, rx: RCtx):
         return d[rx.rep]
     if e == "lit":
         return pdt.lit(rec["v"])
+    if e == "litcast":
+        # a column-free expression containing a cast (string numeral -> int, documented conversion)
+        return pdt.lit(str(rec["v"])).cast(pdt.Int64())
     if e == "ref":
         return real_ref(rec["a"], rx)
     if e == "tag":
